@@ -92,8 +92,9 @@ def run_enum(model, cfg=None, mon_spec=None, max_solutions=20000, stop_after=Non
     solver = None
     try:
         solver = M.build_solver(model, cfg, **(solver_kw or {}))
-        if "stats" in mons:
-            mons["stats"].bind(solver)
+        for mk in ("stats", "branch"):
+            if mk in mons:
+                mons[mk].bind(solver)
         n = 0
         for sol in solver.solve():
             out.solutions.append(M.tup(sol))
@@ -141,8 +142,9 @@ def run_opt(model, cfg, var, direction, mon_spec=None):
         solver = M.build_solver(model, cfg)
         if "opthist" in mons:
             mons["opthist"].bind(solver, var, direction)
-        if "stats" in mons:
-            mons["stats"].bind(solver)
+        for mk in ("stats", "branch"):
+            if mk in mons:
+                mons[mk].bind(solver)
         r = solver.minimize(var) if direction == "min" else solver.maximize(var)
         out.result = None if r is None else M.tup(r)
     except BudgetExceeded as e:
@@ -165,6 +167,8 @@ def run_opt(model, cfg, var, direction, mon_spec=None):
                 out.stats = None
             if "opthist" in mons:
                 mons["opthist"].final(out)
+            if "stats" in mons:
+                mons["stats"].final(solver, out)
         _detach(hub, mons, out)
     out.solver = solver
     return out
